@@ -497,10 +497,4 @@ func c17b2i(b bool) int {
 	return 0
 }
 
-func c17Algebra(c *vx.Check) {
-	c17AlgebraValCount(c)
-	c17AlgebraPairs(c)
-	c17AlgebraRowIDs(c)
-	c17AlgebraGroupCounts(c)
-	c17AlgebraRowMerge(c)
-}
+var c17AlgebraParts = []func(*vx.Check){c17AlgebraValCount, c17AlgebraPairs, c17AlgebraRowIDs, c17AlgebraGroupCounts, c17AlgebraRowMerge}
